@@ -5,7 +5,6 @@
 mod c09;
 mod c10;
 mod c11;
-mod mutants;
 mod par;
 mod pct_model;
 mod rec;
